@@ -569,6 +569,7 @@ Inductive op :=
 | OSel (es : nat)                                                (* module.select *)
 | OVp (es : option nat) (d : Z) (ring : list task) (rnds : list Z) (* __parsec_schedule_vp; None = foreign thread / comm thread *)
 | ONext (es : nat)                                               (* __parsec_get_next_task *)
+| OFlush (es : nat)                                              (* __parsec_schedule_flush_private *)
 | ODrain.                                                        (* rounds of get_next_task by every stream until a round is empty *)
 
 Definition vsched {m} (c : config) (s : vstate m) (es : nat) (d : Z) (ring : list task) (rnds : list Z) : vstate m :=
@@ -593,6 +594,16 @@ Definition vnext {m} (c : config) (s : vstate m) (es0 : nat) : vstate m * option
   match nth es (v_next s) None with
   | Some t => (mkV (v_mod s) (set_nth es None (v_next s)), Some t)
   | None => let (s', o) := msel m c (v_mod s) es in (mkV s' (v_next s), o)
+  end.
+(* __parsec_schedule_flush_private: hand the retained task to the module as a
+   ring of one task at distance 0.  (The code passes the retained task as it is;
+   this is a ring of one task only if the task was retained from a ring of one
+   task, or was made a singleton since: see notes/findings/C08-flush-private-stale-ring.md) *)
+Definition vflush {m} (c : config) (s : vstate m) (es0 : nat) : vstate m :=
+  let es := norm c es0 in
+  match nth es (v_next s) None with
+  | Some t => vsched c (mkV (v_mod s) (set_nth es None (v_next s))) es 0 [t] []
+  | None => s
   end.
 Definition vsel {m} (c : config) (s : vstate m) (es : nat) : vstate m * option task :=
   let (s', o) := msel m c (v_mod s) es in (mkV s' (v_next s), o).
@@ -625,6 +636,7 @@ Definition vstep {m} (c : config) (s : vstate m) (o : op) : vstate m * ob :=
   | OSel es => let (s', r) := vsel c s es in (s', ObSel r)
   | OVp es d ring rnds => (vvp c s es d ring rnds, ObNone)
   | ONext es => let (s', r) := vnext c s es in (s', ObSel r)
+  | OFlush es => (vflush c s es, ObNone)
   | ODrain => let (s', l) := vdrain (S (length (vpend s))) c s in (s', ObDrain l)
   end.
 Fixpoint vrun {m} (c : config) (s : vstate m) (ops : list op) : vstate m * list ob :=
